@@ -21,6 +21,7 @@ ASSUMPTIONS = [
 ]
 JOBS = 14
 SPEC_TIMEOUT = 900
+CONFIRM_ALONE = ('pool_hung', 'job_never_resolved')
 FLOORS = {
     'quick': {'sim:ready_processed': 3000, 'sim:ack_processed': 4000, 'sim:loss_marks': 200,
               'sim:dup_messages': 150, 'sim:unknown_job_messages': 50, 'sim:put_failures': 40,
